@@ -124,11 +124,11 @@ CHECKS["C12"] = dict(
 CHECKS["C11"] = dict(
     text="Per modelled scheme the constructor is the code's `normalize; is_valid; build_value`, with the validity check and the builder as two separate code-shaped models. Proved: "
          "the validity check says 'valid' exactly when construction succeeds and a failed construction is the invalid-version error (all 17 classes); "
-         "the print/re-construct round trip for generic, ebuild, alpine, gem, alpm, the semver family, nuget, deb and rpm (the structured printers through a lemma that str(n) is a digit string of value n; the rpm theorem has the complement of the listed finding as its hypothesis and the finding as a refuting example). For every version class the implementation is checked on the documented-"
+         "the print/re-construct round trip for generic, ebuild, alpine, gem, alpm, the semver family, nuget, deb, rpm, legacy openssl, the openssl dispatch class (both halves), maven and conan (the structured printers through a lemma that str(n) is a digit string of value n; the rpm theorem has the complement of the listed finding as its hypothesis and the finding as a refuting example). For every version class the implementation is checked on the documented-"
          "grammar, near-pair, exhaustive small-alphabet, malformed and non-ASCII streams: validity vs constructor, error type, acceptance of grammar strings, round trip, whitespace "
          "and leading-v invariance; modelled classes are compared with their model string by string.",
     ref="6 (C11)", technique="Coq proof (two-path constructor models) for the modelled schemes + per-class stream evaluation and model correspondence",
-    note="PARTIAL in breadth: no round-trip theorem for legacy openssl/openssl, pypi (third-party printer), maven and conan (they keep the text); those round trips are checked on the implementation and against the models. Known findings: deb colon inside upstream; rpm 0:v1.0. Non-ASCII input is outside the models.")
+    note="PARTIAL in breadth: the only class without a round-trip theorem is pypi (printer of the third-party library packaging); its round trip is checked on the implementation and against the model. Known findings: deb colon inside upstream; rpm 0:v1.0. Non-ASCII input is outside the models.")
 
 CHECKS["C18"] = dict(
     text="Theorems over the code-shaped model of semantic_version's next_major/next_minor/next_patch and of the SemVer precedence extended with the build tie-break (the order the "
